@@ -1038,6 +1038,7 @@ OP_WEIGHTS = {
     "undeclared": 0.3,
     "rollback_probe": 0,
     "nested_probe": 0,
+    "empty_probe": 0,
 }
 
 INT_KINDS = ["none", "plain", "attr", "factory", "fplain", "ffactory"]
@@ -1111,6 +1112,12 @@ def gen_table(rng, prof):
         if k in ("li", "si", "dsi") and rng.random() < P["p_iprep"]:
             a["iprep"] = rng.choice(["abs", "abs", "ident"])
         attrs.append(a)
+    if rng.random() < P.get("p_bare_class", 0.0):
+        # no attribute of the main class has a default: `C1()` has an EMPTY instance dict (C04-r3s1: a snapshot
+        # "if state" instead of "if state is not None")
+        for a in attrs:
+            a.pop("dk", None)
+            a.pop("lit", None)
     c1 = {"attrs": attrs, "postcopy": int(rng.random() < P["p_postcopy"])}
     if rng.random() < P["p_frozen"]:
         c1["frozen"] = 1
@@ -1477,6 +1484,27 @@ class OpGen:
                 toks += [f"f{x['name']}={self.transform_for(x['kind'], bad=False)}" for x in mid]
                 toks.append(f"f{last['name']}={self.transform_for(last['kind'], bad=True)}")
                 self.emit(f"op - transform {r} ip=1 " + " ".join(toks))
+        elif name == "empty_probe":
+            # failing in-place multi-keyword edit of a BRAND-NEW instance constructed without keywords (its dict is
+            # empty when no attribute has a default): first keywords valid, last one ill-typed
+            cands = [k for k in self.main_classes if not self.cd(k).get("frozen")]
+            if not cands:
+                return
+            k = rng.choice(cands)
+            tok = self.fresh_instance(k, kw=False)
+            kattrs = list(self.cd(k)["attrs"])
+            rng.shuffle(kattrs)
+            if len(kattrs) < 2:
+                return
+            good, last = kattrs[: rng.randrange(1, min(3, len(kattrs)))], kattrs[-1]
+            if rng.random() < 0.6:
+                toks = [f"k{x['name']}={self.value(x['kind'], bad=False)}" for x in good]
+                toks.append(f"k{last['name']}={self.value(last['kind'], bad=True)}")
+                self.emit(f"op - update {tok} ip=1 " + " ".join(toks))
+            else:
+                toks = [f"f{x['name']}=const:{self.scalar_for(x['kind'])}" for x in good if x["kind"] in ("int", "str")]
+                toks.append(f"f{last['name']}={self.transform_for(last['kind'], bad=True)}")
+                self.emit(f"op - transform {tok} ip=1 " + " ".join(toks))
         elif name == "nested_probe":
             # in-place keyword edit / attribute transform of a nested spec value that SUCCEEDS on the nested
             # value while the owner-level step after it may fail (owner's preparer at its n-th call, frozen owner):
